@@ -113,6 +113,10 @@ def analyse(case, res):
     ref = harness.run_case(ref_case)
     if ref.outcome != "returned" or res.outcome in ("rejected", "build_error"):
         return [], False, ["aborted_by_other_property" if ref.outcome != "returned" else "rejected"]
+    if res.outcome == "exception" and schedprops.exc_class(res) == "AssertionError:incomparable":
+        # the open finding F05 (two paths with incomparable delays; which of two runs of one scenario hits the
+        # assertion depends on set iteration order) is C05's and C06's business, not a verdict about the loop guard
+        return [], False, ["aborted_by_other_property"]
     need = substeps(ref)
     if not case.get("strict_count"):
         # Generated scenarios (nested groups, several weak edges, weak edges outside cycles): the number of steps
